@@ -476,7 +476,7 @@ func ruleOrderSortKey(c *Ctx) []Obligation {
 		}
 		con := "identity value lists are sorted by a key that is unique among identities"
 		// compared expressions: collect field names / method names compared with <
-		comparesName, comparesQualified := false, false
+		comparesName, comparesQualified, comparesPrefix := false, false, false
 		eachInstr(an, func(in ssa.Instruction) {
 			bo, ok := in.(*ssa.BinOp)
 			if !ok || bo.Op != token.LSS {
@@ -486,13 +486,18 @@ func ruleOrderSortKey(c *Ctx) []Obligation {
 				comparesName = true
 			}
 			if call, okc := bo.X.(*ssa.Call); okc {
-				if cal := call.Call.StaticCallee(); cal != nil && (cal.Name() == "modulePrefixedName" || cal.Name() == "PrefixedName") {
-					comparesQualified = true
+				if cal := call.Call.StaticCallee(); cal != nil && cal.Name() == "modulePrefixedName" {
+					comparesQualified = true // the dictionary key function (ID.KEY): module:name, unique
+				}
+				if cal := call.Call.StaticCallee(); cal != nil && cal.Name() == "PrefixedName" {
+					comparesPrefix = true // prefix:name — two modules may declare the same prefix
 				}
 			}
 		})
 		pos := c.Pos(an.Pos())
 		switch {
+		case comparesPrefix && !comparesQualified:
+			obs = append(obs, bad(R, con, pos, "ties are broken on prefix:name, but prefixes are not unique across modules: same-named identities of two modules with the same prefix keep map-iteration order"))
 		case comparesQualified:
 			obs = append(obs, ok(R, con, pos, "ties on the bare name are broken on the module-qualified name, the dictionary key under which identities are unique (ID.KEY)"))
 		case comparesName:
